@@ -103,7 +103,7 @@ func (a *adapter) Reset(init map[string]tla.Value) (engine.Fields, error) {
 			var err error
 			blk, inv, err = a.builder.Build(pb, rank, 0, list, fmt.Sprintf("b%d", b))
 			if err != nil || len(inv) != 0 {
-				engine.Failf("build block %d: %v (invalid %d)", b, err, len(inv))
+				engine.Realf("build block %d: %v (invalid %d)", b, err, len(inv))
 			}
 			a.built[key] = blk
 		}
